@@ -38,7 +38,7 @@ def worker_init():
 
 
 def cases(tier, seed):
-    n = 8 if tier == 'quick' else 80
+    n = 24 if tier == 'quick' else 80
     out = [{'part': 'parse', 'seed': seed * 1009 + i, 'n': 1500} for i in range(n)]
     out += [{'part': 'connect', 'seed': seed * 1009 + i, 'n': 10} for i in range(n)]
     out += [{'part': 'scan', 'seed': seed * 1009 + i, 'n': 2} for i in range(max(2, n // 2))]
